@@ -932,3 +932,46 @@ def check_alias_ends(prog, rep, rels, rule='ALIAS-ends'):
                                  use.lineno, C, nm), st.lineno)
     rep.instance(rule, {'modules': list(rels), 'functions_scanned': n})
     return n
+
+
+# ---------------------------------------------------------------------------------------------
+# STATE-derived-agree: __init__ and __setstate__ derive the same attribute from the same inputs
+# with the same expression (a copied / unpickled / hdf5-loaded object must be the object that the
+# constructor builds). Compared only where both expressions have the same non-empty set of free
+# names (the state tuple is unpacked into the constructor's names).
+def check_state_derived_agree(prog, rep, rels, rule='STATE-derived-agree'):
+    import ast
+    from .core import unparse, is_self_attr
+    ct = prog.classtable()
+
+    def attr_exprs(f):
+        out = {}
+        for st in ast.walk(f):
+            if isinstance(st, ast.Assign) and len(st.targets) == 1 and is_self_attr(st.targets[0]):
+                out.setdefault(st.targets[0].attr, []).append(st.value)
+        return out
+    n = 0
+    for ci in ct.all:
+        if ci.module.relpath not in rels:
+            continue
+        a, b = ci.methods.get('__init__'), ci.methods.get('__setstate__')
+        if a is None or b is None:
+            continue
+        ea, eb = attr_exprs(a), attr_exprs(b)
+        for k in sorted(set(ea) & set(eb)):
+            for y in eb[k]:
+                ny = {x.id for x in ast.walk(y) if isinstance(x, ast.Name)} - {'self'}
+                cands = [x for x in ea[k] if ({z.id for z in ast.walk(x) if isinstance(
+                    z, ast.Name)} - {'self'}) == ny and ny]
+                if not cands:
+                    continue
+                n += 1
+                same = any(unparse(x) == unparse(y) for x in cands)
+                rep.instance(rule, {'class': ci.name, 'attribute': k, 'agree': same})
+                if not same:
+                    rep.violation(rule, ci.module, ci.name + '.__setstate__', 'derived-differs:' + k,
+                                  '__setstate__ derives self.%s as `%s`, __init__ as `%s` from the '
+                                  'same inputs: an object restored by copy / pickle / from_hdf5 '
+                                  'differs from the constructed one' %
+                                  (k, unparse(y)[:50], unparse(cands[0])[:50]), y.lineno)
+    return n
